@@ -1,6 +1,6 @@
 (* Executable model of bigtree/tree/helper.py:58-107 (get_subtree) and :110-233 (prune_tree),
-   together with what they call: search.py:330-356 find_path -> :89-117 find -> :51-86 findall
-   (+ :29-48 the max_count=1 contract), node.py:112-121 path_name, basenode.py:730-741 copy,
+   together with what they call: search.py:331-357 find_path -> :89-117 find -> :51-86 findall
+   (+ :29-48 the max_count=1 contract), node.py:112-121 path_name, basenode.py:732-743 copy,
    iterators.py:333-353 levelordergroup_iter (only as the provider of "the nodes of level k").
    No proofs in this file.
 
@@ -59,11 +59,11 @@ Fixpoint names_along (t : tree) (p : pos) : list str :=
 Definition node_path_name (tsep : str) (t : tree) (p : pos) : str :=
   tsep ++ join tsep (names_along t p).
 
-(* ---- basenode.py:741 copy.deepcopy(self): same shape, names, attributes; all objects new --- *)
+(* ---- basenode.py:743 copy.deepcopy(self): same shape, names, attributes; all objects new --- *)
 Fixpoint copy_tree (t : tree) : tree :=
   match t with T _ n a ks => T None n a (map copy_tree ks) end.
 
-(* ---- search.py:330-356 find_path ------------------------------------------------------------
+(* ---- search.py:331-357 find_path ------------------------------------------------------------
      path_name = path_name.rstrip(tree.sep)                      (character-set strip: K3)
      return find(tree, lambda _node: _node.path_name.endswith(path_name))
    find = findall(..., max_count=1): pre-order filter; more than one hit -> SearchError;
